@@ -72,6 +72,16 @@ MUTANTS = [
     ("seed used as upper bound", "AegeanTools/source_finder.py",
      "    if not np.any(a):",
      "    if not np.any(a) or np.all(snr < seed_clip / 2):", "C02-R6"),
+    ("pre-selected labels drop the first entry",
+     "AegeanTools/source_finder.py",
+     "    islands = []\n    for i in range(n):",
+     "    seeded = np.unique(l * (snr > seed_clip))[1:] - 1\n"
+     "    islands = []\n    for i in seeded:", "C02-R8"),
+    ("pre-selected labels keep the background",
+     "AegeanTools/source_finder.py",
+     "    islands = []\n    for i in range(n):",
+     "    islands = []\n"
+     "    for i in np.unique(l * (snr > seed_clip)) - 1:", "C02-R8"),
     ("last labelled group never visited", "AegeanTools/source_finder.py",
      "    for i in range(n):\n        xmin, xmax = f[i][0].start",
      "    for i in range(n - 1):\n        xmin, xmax = f[i][0].start", "C02-R8"),
@@ -91,6 +101,16 @@ TWINS = [
     ("own via island mask", "AegeanTools/source_finder.py",
      "                x, y = np.where(own)\n",
      "                x, y = np.where(l[xmin:xmax, ymin:ymax] == i + 1)\n"),
+    ("island loop over the seeded labels only",
+     "AegeanTools/source_finder.py",
+     "    islands = []\n    for i in range(n):",
+     "    islands = []\n"
+     "    for i in np.unique(l[snr > seed_clip]) - 1:"),
+    ("seeded labels with the zero entry filtered by value",
+     "AegeanTools/source_finder.py",
+     "    islands = []\n    for i in range(n):",
+     "    u = np.unique(l * (snr > seed_clip))\n    seeded = u[u > 0] - 1\n"
+     "    islands = []\n    for i in seeded:"),
 ]
 
 
@@ -185,8 +205,8 @@ def run(ctx):
               "blank pixels must stay NaN so that every comparison on them "
               "is False", node=sdef[0])
     # seed tests
-    seeds = [c for c in ast.walk(m.loop) if isinstance(c, ast.Compare) and
-             seed_p in names_in(c)]
+    seeds = [c for st in m.loop.body for c in ast.walk(st)
+             if isinstance(c, ast.Compare) and seed_p in names_in(c)]
     ctx.floor("C02-R2", len(seeds), 1, "comparisons with the seed threshold")
     own = m.own_names()
     for c in seeds:
@@ -474,6 +494,12 @@ def r5(ctx, prog):
     ctx.floor("C02-R5", n, 2, "consumer slices of bounding boxes")
 
 
+def _base_name(e):
+    while isinstance(e, ast.Subscript):
+        e = e.value
+    return norm(e)
+
+
 def r8_loop(ctx, prog, m):
     """every labelled group is visited, over exactly its label-slice, on a
     private copy of its pixels"""
@@ -486,7 +512,8 @@ def r8_loop(ctx, prog, m):
              "(row offset, column offset), and PixelIsland.set_mask stores "
              "the mask it is given")
     lp = m.loop
-    fn = norm(lp.iter.func)
+    fn = norm(lp.iter.func) if isinstance(lp.iter, ast.Call) and \
+        m.domain is None else None
     if fn == "range":
         a = lp.iter.args
         ok = len(a) == 1 and norm(a[0]) == m.nlab or (
@@ -496,6 +523,41 @@ def r8_loop(ctx, prog, m):
                   "1..%s, the loop index 0..%s-1); found %s: the remaining "
                   "groups are never reported" % (m.nlab, m.nlab, m.nlab,
                                                  norm(lp.iter)), node=lp)
+    elif m.domain is not None:
+        d = m.domain
+        ctx.check("C02-R8", fi, "pre-selected island loop " + norm(lp.iter),
+                  d["bad"] is None, "the island loop runs over a "
+                  "pre-selected set of labels: %s" % d["bad"], node=lp)
+        if d["bad"] is None:
+            ctx.check("C02-R8", fi, "pre-selected labels exclude the "
+                      "background", d["zero"] == "no",
+                      "the label set of the island loop may contain the "
+                      "background label 0 (index -1 = the LAST island's "
+                      "slice with a label that matches nothing)", node=lp)
+            ctx.check("C02-R8", fi, "pre-selected labels shifted to slice "
+                      "indices", d["shift"] == -1,
+                      "labels are 1..n, find_objects slices are indexed "
+                      "0..n-1: the loop variable must be label - 1 (found "
+                      "label %+d)" % d["shift"], node=lp)
+            # the selection may not be stronger than the seed test
+            seeds = [c for st in lp.body for c in ast.walk(st)
+                     if isinstance(c, ast.Compare) and len(c.ops) == 1
+                     and "seed" in norm(c)]
+            cnd = d["cond"]
+            ok = isinstance(cnd, ast.Compare) and len(cnd.ops) == 1 and \
+                bool(seeds) and any(
+                    type(cnd.ops[0]) is type(c.ops[0]) or
+                    isinstance(cnd.ops[0], ast.GtE)
+                    for c in seeds) and any(
+                        norm(cnd.comparators[0]) == norm(c.comparators[0])
+                        and _base_name(cnd.left) == _base_name(c.left)
+                        for c in seeds)
+            ctx.check("C02-R8", fi, "pre-selection %s vs seed test" %
+                      (norm(cnd, 50) if cnd is not None else "none"), ok,
+                      "the pre-selection of labels must not be stronger "
+                      "than the seed test of the loop body (same statistic, "
+                      "same threshold, > or >=); otherwise seeded groups are "
+                      "never visited", node=lp)
     else:
         ctx.ob("C02-R8", fi, "island loop " + norm(lp.iter), True, {}, lp)
     # cut-out bounds
